@@ -415,6 +415,15 @@ def unit_header_validation(prop):
     return unit
 
 
+def unit_windows(prop):
+    def unit(tier, known):
+        from contracts import windows as C
+        jobs = [("contracts.windows", "generate", (prop, cls)) for cls in C.WINDOWS]
+        return run_parallel("windows", jobs, to_case=C.to_case, replay_module="rtc.c20")
+    unit.__name__ = "windows"
+    return unit
+
+
 def unit_stack(prop):
     def unit(tier, known):
         from contracts import post_stack as C
@@ -435,7 +444,7 @@ UNITS = {
     "C08": [unit_alias_arg("C08")],
     "C18": [unit_pre("C18", "preemph"), unit_pre("C18", "dither")],
     "C12": [unit_copy_samples("C12"), _lazy("contracts.sphere", "unit_g711", "C12"), unit_header_validation("C12")],
-    "C20": [unit_circshift("C20"), _lazy("contracts.util_misc", "unit_angular", "C20")],
+    "C20": [unit_circshift("C20"), _lazy("contracts.util_misc", "unit_angular", "C20"), unit_windows("C20")],
     "C05": [unit_tri("C05", "init"), unit_tri("C05", "truncated"), unit_fbank("C05", "init"), unit_fbank("C05", "truncated")],
     "C06": [unit_tri("C06", "truncated"), unit_tri("C06", "init"), unit_fbank("C06", "truncated"), unit_fbank("C06", "init")],
     "C14": [unit_torch_stft("C14"), unit_torch_wrappers("C14"), _lazy("contracts.torch_wrappers", "unit_from_stft", "C14")],
